@@ -745,8 +745,14 @@ func checkC18(P *Program, r *Result, tier string) {
 				}
 				if okv != nil && guardedBy(ret, okv, false) {
 					// new exception whose err field holds the argument
+					var obj ssa.Value
 					if c := staticCallNamed(ret.Results[0], "NewProtocolException"); c != nil {
-						for _, ref := range *c.Referrers() {
+						obj = c
+					} else if al, isAl := ret.Results[0].(*ssa.Alloc); isAl && typeIsPtrTo(al.Type(), "ProtocolException") {
+						obj = al
+					}
+					if obj != nil && obj.Referrers() != nil {
+						for _, ref := range *obj.Referrers() {
 							if fa, ok := ref.(*ssa.FieldAddr); ok {
 								st := deref(fa.X.Type()).Underlying().(*types.Struct)
 								if st.Field(fa.Field).Name() == "err" {
